@@ -411,6 +411,30 @@ func (st *runState) finishWith(ri *simcheck.RunInfo, sim *simrt.Sim, sys *System
 					}
 				}
 			}
+		case strings.HasPrefix(blk.Table, "profiles_input"):
+			sn := blk.Col("service_name")
+			if sn == nil {
+				add("C02", "profiles-block-columns", "profiles block lacks a column", blk.SQL)
+				continue
+			}
+			seen := map[string]bool{}
+			for i := 0; i < blk.Rows; i++ {
+				tag := sn.Vals[i].(string)
+				x := st.exp[tag]
+				if x == nil || !x.Profile {
+					if !st.hostile {
+						add("C02", "row-not-submitted", "a block contains a row no request submitted", fmt.Sprintf("profiles INSERT #%d row %d: service_name=%q", blk.Seq, i, tag))
+					}
+					continue
+				}
+				if seen[tag] {
+					add("C02", "row-duplicated-in-block", "a submitted row occurs twice in one block", fmt.Sprintf("profiles INSERT #%d contains profile %s twice", blk.Seq, tag))
+				}
+				seen[tag] = true
+				if blk.Finished && blk.Err == nil {
+					okRows[tag] = append(okRows[tag], loc{blk, i})
+				}
+			}
 		case strings.HasPrefix(blk.Table, "tempo_traces_attrs_gin"):
 			key, val, sid, tid, ts := blk.Col("key"), blk.Col("val"), blk.Col("span_id"), blk.Col("trace_id"), blk.Col("timestamp_ns")
 			if key == nil || val == nil || sid == nil || tid == nil || ts == nil {
@@ -613,7 +637,7 @@ func (st *runState) finishWith(ri *simcheck.RunInfo, sim *simrt.Sim, sys *System
 		// stream identity + C04 index coverage
 		fpOfStream := map[string]uint64{}
 		for _, x := range r.Wire.Rows {
-			if x.Span {
+			if x.Span || x.Profile {
 				continue
 			}
 			var ls []loc
@@ -678,7 +702,7 @@ func (st *runState) finishWith(ri *simcheck.RunInfo, sim *simrt.Sim, sys *System
 	setOfFp := map[uint64]map[string]bool{}
 	for _, r := range st.reqs {
 		for _, x := range r.Wire.Rows {
-			if x.Labels == nil || x.Span {
+			if x.Labels == nil || x.Span || x.Profile {
 				continue
 			}
 			var ls []loc
